@@ -1871,6 +1871,44 @@ func coqComment(src string) string {
 	return "(* " + q + " *)"
 }
 
+// c03GlobErr: does rawLoadPackage (load.go) hit a pattern fs.Glob rejects before it finds the package?  It tries
+// vendor/<pkg>/*.go, then drops leading path elements.  fs.Glob fails only on a malformed pattern (path.ErrBadPattern:
+// an unclosed [ or a trailing backslash); I/O errors and invalid paths just match nothing.
+func c03GlobErr(sys fs.FS, pkg string) bool {
+	parts := append([]string{"vendor"}, strings.Split(pkg, "/")...)
+	for len(parts) > 0 {
+		m, err := fs.Glob(sys, strings.Join(parts, "/")+"/*.go")
+		if err != nil {
+			return true
+		}
+		if len(m) > 0 {
+			return false
+		}
+		parts = parts[1:]
+	}
+	return false
+}
+
+// c03OddImports: import clauses with the paths the loader treats specially
+func c03OddImports(r *rng) string {
+	odd := []string{`""`, `"."`, `".."`, `"/"`, `"/lib"`, `"lib/"`, `"./lib"`, `"a/../lib"`, `"lib//"`, `"lib\\"`, `"a\\b"`, `"["`, `"lib["`, `"a[b]"`, `"[]"`, `"[a-"`,
+		`"\\"`, `"*"`, `"?"`, `"li*"`, `"\x00"`, `"vendor/ven"`, `"ven"`, `"lib"`, `"fmt"`, `"lib/lib.go"`, `"//"`, `"\400"`, `"\ud800"`, "`lib`", "`li[b`", `"cyc1"`, `"bad"`, `"conf"`, `"badalias"`, `"rt"`}
+	var sb strings.Builder
+	switch r.intn(3) {
+	case 0:
+		fmt.Fprintf(&sb, "import (z %s)\n", pick(r, odd))
+	case 1:
+		sb.WriteString("import (\n")
+		for k := 1 + r.intn(3); k > 0; k-- {
+			fmt.Fprintf(&sb, "\tz%d %s\n", k, pick(r, odd))
+		}
+		sb.WriteString(")\n")
+	default:
+		fmt.Fprintf(&sb, "import %s\nimport (y %s)\n", pick(r, []string{`"fmt"`, `"lib"`, `""`, `"["`}), pick(r, odd))
+	}
+	return sb.String()
+}
+
 func coqBool(b bool) string {
 	if b {
 		return "true"
@@ -1889,6 +1927,19 @@ func cmdC03Corr(a cmdArgs) {
 	var jobs []c03Job
 	for len(jobs) < 2*a.n {
 		j := c03GenJob(r, corpus, len(jobs))
+		if len(jobs)%20 == 0 {
+			// deliberately: an Eval whose top tree imports odd paths (empty = the top package itself, malformed glob
+			// patterns, slashes, dots, literals strconv.Unquote rejects), with a real or a nil file system
+			src, _, _ := corpus.base(r)
+			if r.chance(50) {
+				src = pick(r, []string{"1", "x := 1; x", "println(1)"})
+			}
+			j = c03Job{ID: len(jobs), Entry: "eval", Class: "corr-import-paths", Fname: "eval", Files: c03EvalFS(), Opts: r.intn(4)}
+			j.Src = c03OddImports(r) + src
+			if r.chance(35) {
+				j.NilFS, j.Files = true, nil
+			}
+		}
 		if j.Entry != "eval" && j.Entry != "load" {
 			continue
 		}
@@ -1954,9 +2005,23 @@ func cmdC03Corr(a cmdArgs) {
 					st.add("skipped: tree dump not readable", fmt.Sprint(i))
 					continue
 				}
+				names := map[string]string{"": ""} // Eval's top package is "": importing it is a self-import
 				for _, p := range paths {
-					_, e := strconv.Unquote(p)
-					flags = append(flags, coqBool(e == nil))
+					u, e := strconv.Unquote(p)
+					if e != nil {
+						flags = append(flags, "PBad")
+						continue
+					}
+					n, ok := names[u]
+					if !ok {
+						n = fmt.Sprintf("p%d", len(names))
+						names[u] = n
+					}
+					if u != "" && !base.NilFS && c03GlobErr(c03FS(&base), u) {
+						flags = append(flags, "PGlobErr "+coqStrLit(n))
+					} else {
+						flags = append(flags, "PName "+coqStrLit(n))
+					}
 				}
 			}
 			cases = append(cases, fmt.Sprintf("CEvalCase %s %s %s %s [%s] %s %s %s", coqBool(base.NilFS), coqBool(with.Opts&1 != 0), coqBool(with.Opts&2 != 0),
